@@ -176,16 +176,14 @@ def run(ctx) -> None:
         upf = prog.function("cli._update")
         pv_fq = f"{ver}.parse_version_info"
         def parsed_new(fn, target_call_fq: str, param: str) -> bool:
-            cs = shapes.find_calls(prog, fn, target_call_fq)
-            if len(cs) != 1:
+            traces = shapes.trace_param(prog, fn, target_call_fq, param)
+            if not traces:
                 return False
-            callee = prog.function(target_call_fq)
-            arg = call_arg(cs[0], callee, param)
-            if arg is None:
-                return False
-            v = shapes.resolve_alias(fn, arg)
-            return isinstance(v, ast.Call) and [unparse(x) for x in v.args] == ["new_version", "cfg.version_pattern"] and \
-                prog.resolve_call(fn, v, count=False).name == pv_fq
+            for v, _c, _chain in traces:
+                ok_ = isinstance(v, ast.Call) and [unparse(x) for x in v.args] == ["new_version", "cfg.version_pattern"] and unparse(v.func) == f"{ver}.parse_version_info"
+                if not ok_:
+                    return False
+            return True
         n_points += 1
         ctx.check("R2", parsed_new(gd, f"{rw}.diff", "new_vinfo") and parsed_new(upf, f"{rw}.rewrite_files", "new_vinfo"),
                   f"{rw}: diff and real update derive new_vinfo = {ver}.parse_version_info(new_version, cfg.version_pattern)",
